@@ -266,8 +266,8 @@ def cases(draw, mode):
         lab, v = draw(G.values_near(T))
         src = "near_" + ("confuse" if lab.startswith("confuse") else lab)
     if mode == "e2e" and not G.hash_safe(v):
-        # the run hashes the inputs; pydra sorts dict keys / set elements and refuses mixed kinds
-        # by design (C08 assumption) - keep that out of the end-to-end part
+        # (inactive unless VERIF_HASH_SAFE_FILTER=1: mixed-kind dict keys / set elements were once
+        # filtered here as "refused by design"; that reading was wrong, see DESIGN 10)
         src, v = "of", draw(G.values_of(T).filter(G.hash_safe))
     case = dict(mode=mode, T=T, v=v, src=src)
     if mode == "parser":
